@@ -276,6 +276,14 @@ fn unhex(s: &str) -> Option<Vec<u8>> {
     if s == "-" {
         return Some(vec![]);
     }
+    // run-length prefix `z<N>:<hex>`: N zero bytes, then the hex bytes
+    if let Some(rest) = s.strip_prefix('z') {
+        let (n, tail) = rest.split_once(':')?;
+        let n: usize = n.parse().ok()?;
+        let mut v = vec![0u8; n];
+        v.extend(unhex(if tail.is_empty() { "-" } else { tail })?);
+        return Some(v);
+    }
     if s.len() % 2 != 0 {
         return None;
     }
